@@ -137,20 +137,9 @@ def parent_miss(ctx):
     ctx.ob(ok, u, 'the deletion runs only when the parent was fetched, outside the fetch\'s handler: %s' % [norm(d) for d in dels])
     roles = {}
     roles.update(locals_from_attrs(u, ('op', 'arg', 'path')))
-    split = None
-    for n in ast.walk(u.node):
-        if isinstance(n, ast.If) and matches(n.test, 'self.path.startswith(S)') and len(n.body) == 2 and len(n.orelse) == 2:
-            got = {}
-            for st in n.body:
-                b1 = match(st, '$dt = scope[UP]')
-                b2 = match(st, '$dp = self.path.from_t()')
-                if b1:
-                    got['dt'] = b1['dt']
-                if b2:
-                    got['dp'] = b2['dp']
-            if len(got) == 2 and any(matches(st, '%s = %s' % (got['dt'], u.params[1])) for st in n.orelse) \
-                    and any(matches(st, '%s = self.path' % got['dp']) for st in n.orelse):
-                split = got
+    from .c11 import assign_roles
+    ar = assign_roles(ctx, u)
+    split = {'dt': ar['dest_target'], 'dp': ar['dest_path']} if 'root_split' in ar else None
     if dels:
         d = dels[0]
         lam = d.args[0]
